@@ -57,6 +57,20 @@ def traverse_facts(ctx, cq):
         a0 = norm(hc[0].args[0]) if hc[0].args else "?"
         a1 = norm(hc[0].args[1]) if len(hc[0].args) > 1 else "?"
         F["hasher"] = Fact("%s(path, self.piece_length)" % cname if (a0, a1) == (p, "self.piece_length") else "%s(%s, %s)" % (cname, a0, a1), hc[0], fn)
+        # the options of the per-file hasher (padding switch among them) are the creator's, the same for every file of the
+        # tree: a mapping chosen per file - a local rebound under a test, or explicit pad= / align= keywords that are not
+        # constants - makes padding depend on which file it is, and whether every file but the last of the stream is still
+        # padded is then a question about orders of traversal that the fact table does not answer
+        per_file = None
+        for kw in hc[0].keywords:
+            if kw.arg is None and isinstance(kw.value, ast.Name):
+                binds_ = [n for n in body_nodes if isinstance(n, (ast.Assign, ast.AugAssign)) and any(isinstance(t, ast.Name) and t.id == kw.value.id for t in (n.targets if isinstance(n, ast.Assign) else [n.target]))]
+                if len(binds_) > 1:
+                    per_file = "**%s, bound %d times on the way to the construction" % (kw.value.id, len(binds_))
+            elif kw.arg in ("pad", "align") and not isinstance(kw.value, ast.Constant) and not (isinstance(kw.value, ast.Attribute) and norm(kw.value).startswith(fn.self_name + ".")):
+                per_file = "%s=%s" % (kw.arg, norm(kw.value)[:40])
+        if per_file is not None:
+            F["hasher"] = und("the options of the per-file hasher are chosen file by file (%s); which files end up padded was not followed" % per_file, hc[0], fn)
     else:
         F["hasher"] = und("expected exactly one hasher construction, found %d" % len(hc), fbn, fn)
     # empty file: early return of a length-only leaf that dominates the hasher
